@@ -1149,9 +1149,12 @@ def c04(v):
         uss = range(0, 1000000)
     for us in uss:
         plan.append(("T.format", [[45296, us], list(PIC_FRAC)]))
-    for x in P.dt:
+    for x in P.dt + P.dt_grid:
         plan.append(("DT.format", [x, list("DD HH24:MI:SS.FF6")]))
         plan.append(("DT.format", [x, list("DD HH24:MI:SS.FF9 FF1 FF")]))
+    for t in P.t_grid:
+        plan.append(("T.format", [t, list(PIC_TIME + " FF6")]))
+        plan.append(("TS.format", [[19782, t[0], t[1]], list(PIC_TS)]))
     # day counts of an interval: every count up to 1100 and around the powers of ten (widths 1..9)
     for dcount in list(range(0, 1101)) + [10**p + q for p in range(4, 9) for q in (-1, 0, 1)]:
         if dcount <= 100000000:
@@ -1387,6 +1390,10 @@ def c06(v):
     for x in P.dt:
         for p in DT_PICS:
             plan.append(("DT.roundtrip", [x, list(p)]))
+    for j, x in enumerate(P.dt_grid):      # every combination of the fields at 0 / 1 / their maximum, both signs
+        plan.append(("DT.roundtrip", [x, list(DT_PICS[j % len(DT_PICS)])]))
+    for j, t in enumerate(P.t_grid):
+        plan.append(("T.roundtrip", [t, list(TIME_PICS[j % len(TIME_PICS)])]))
     eventtrace(v, "roundtrip", plan, {"result", "panic"}, shard=8000)
     cases = [c_ for c_ in spell_cases(v)]
     gens = spellgen(v, "rt", cases[::3], chunks=8)       # RoundTripSpec is checked by TLC on these
@@ -1476,6 +1483,11 @@ def c15(v):
         for x in pool:
             plan.append((ty + ".json", [x]))
             plan.append((ty + ".bin", [x]))
+    for x in P.dt_grid:          # every combination of the interval's fields at 0 / 1 / their maximum, both signs
+        plan.append(("DT.json", [x]))
+    for t in P.t_grid:
+        plan.append(("T.json", [t]))
+        plan.append(("TS.json", [[-7305, t[0], t[1]]]))
     for raw in P.i32 + [pools.DATE_MIN - 1, pools.DATE_MAX + 1, pools.YM_MAX + 1, -pools.YM_MAX - 1, pools.YM_MAX, -pools.YM_MAX]:
         plan.append(("D.unbin", [raw]))
         plan.append(("YM.unbin", [raw]))
